@@ -646,7 +646,8 @@ def c03_cases(rng, tier):
     # long ranges (bulk-read territory) that cross a carry into a more significant key word, with mutated keys before the
     # carry, right after it, at both ends of the range and outside it
     for n in (63, 64, 65, 100):
-        for rk in ([0, I64_MAX - 39], [5, I64_MAX - 70], [I64_MAX - 20], [0, 0, I64_MAX - 2]):
+        for rk in ([0, I64_MAX - 39], [5, I64_MAX - 70], [I64_MAX - 20], [0, 0, I64_MAX - 2], [5, I64_MAX, I64_MAX - 39], [I64_MAX, I64_MAX, I64_MAX - 30],
+                   [7, I64_MAX, I64_MAX, I64_MAX - 50]):
             declared = [(list(rk), [41]), (py_nth_key(rk, n - 1) or list(rk), [42, 43])]
             mid = py_nth_key(rk, 45)
             if mid:
@@ -1115,6 +1116,38 @@ def spin(k):
     return [P(k), P(1), op("REP"), P(0), op("POP"), op("REPE")] if k > 0 else []
 
 
+def p_many_mutations(n, base):
+    """leaf: data output encoding n mutations  [base + c] -> [c]  (c = 0..n-1), written by a loop"""
+    cell = lambda off: [op("REPC"), P(4), op("MUL"), P(off), op("ADD")]
+    return ([P(1 + 4 * n), op("ALOC"), op("POP"), P(n), P(0), op("STO"), P(n), P(1), op("REP")] +
+            [P(1)] + cell(1) + [op("STO")] +
+            [op("REPC"), P(base), op("ADD")] + cell(2) + [op("STO")] +
+            [P(1)] + cell(3) + [op("STO")] +
+            [op("REPC")] + cell(4) + [op("STO")] +
+            [op("REPE"), P(2)])
+
+
+def c02_dup_blame_cases():
+    """two solutions of one contract computing the same slot, one of them as the last of many mutations: the solution
+    that is blamed for the duplicate must not depend on which decoding finishes first"""
+    out = []
+    for n in (300, 1200):
+        k = 1000 + n - 1
+        for order in (0, 1):
+            progs = [p_many_mutations(n, 1000), p_output_mutation([k], [5])]
+            if order:
+                progs.reverse()
+            sols, preds, pbytes = [], [], []
+            for i, pr in enumerate(progs):
+                (nodes, edges), pb = build_pred(encode_graph([[]]), [pr])
+                paddr = bytes([0xE0 + i]) * 32
+                sols.append((ADDR_A, paddr, [], []))
+                preds.append((ADDR_A, paddr, (nodes, edges)))
+                pbytes += pb
+            out.append(check_case("twopass", False, sols, preds, pbytes, []))
+    return out
+
+
 def c02_check_cases(rng, tier):
     """two-pass cases with wide levels and many solutions whose tasks take very different times"""
     out = []
@@ -1176,7 +1209,7 @@ def c02_cases(rng, tier):
     sizes = [1, 2, 5, 16] if tier == "quick" else list(range(1, 17))
     reps = 2 if tier == "quick" else 3
     pre = f"o_pool {len(sizes)} " + " ".join(map(str, sizes)) + f" {reps} "
-    cases = c02_check_cases(rng, tier) + c02_vm_cases(rng, tier) + V.pex_race_cases()
+    cases = c02_check_cases(rng, tier) + c02_vm_cases(rng, tier) + V.pex_race_cases() + c02_dup_blame_cases()
     # inputs of C01 / C03 / C10 as well
     c1, _ = c01_cases(rng, "quick")
     c3, _ = c03_cases(rng, "quick")
